@@ -99,7 +99,10 @@ def do_read(bt, run, what, path):
         return {str(c): [None if (isinstance(x, float) and math.isnan(x)) else x for x in v[c].tolist()] for c in v.columns}
     if hasattr(v, "index") and hasattr(v, "loc"):
         return _lst(v.loc[: run.now()])
-    return float(v) if isinstance(v, (int, float, np.floating)) else repr(v)
+    if isinstance(v, (int, float, np.floating)):
+        v = float(v)
+        return None if math.isnan(v) else v
+    return repr(v)
 
 
 def case_twin(ctx, spec):
@@ -113,9 +116,7 @@ def case_twin(ctx, spec):
         B = machine.TreeRun(bt, spec)
     except ZeroDivisionError:
         raise Discard("zero base")
-    frozen = None
-    frozen_n = 0
-    prev_snap = snapshot(bt, B.root, B.now(), check_index=False)
+    frozen_rows = {}
     n_noise_effective = 0
     mutated_since_next = False
     labs = set(machine.history_labels(spec, None))
@@ -134,6 +135,23 @@ def case_twin(ctx, spec):
                 mutated_since_next = False
             elif op[0] != "update":
                 mutated_since_next = True
+            # the very first read after the operation: a generated property of a generated node on the stale tree A must equal
+            # the same read on B after an explicit update (whichever node is asked first has to refresh the whole tree correctly)
+            fr = spec.get("first_reads")
+            if fr:
+                fpath, fwhat = fr[k % len(fr)]
+                ra = do_read(bt, A, fwhat, fpath)
+                B.root.update(B.now())
+                rb = do_read(bt, B, fwhat, fpath)
+                if ra != rb:
+                    raise Violation("%s: first read %s.%s on the stale tree gives %s but after an explicit update %s" % (tag, fpath, fwhat, _short(ra), _short(rb)), signature="stale-first-read:" + fwhat)
+                if A.now() != B.now() or A.root.now != B.root.now:
+                    raise Violation("%s: reading %s.%s moved the tree's clock to %s" % (tag, fpath, fwhat, A.root.now), signature="stale-read-clock")
+            # both trees are refreshed after every operation (A through reads, B through explicit updates): operations such as
+            # allocate push capital down by the weights of the last refresh, so leaving one twin stale across operations would
+            # compare two different histories rather than one history with and without redundant calls
+            A.root.value
+            B.root.update(B.now())
             for kind, arg, path in noise.get(k, []):
                 if kind == "update":
                     for _ in range(arg):
@@ -148,6 +166,11 @@ def case_twin(ctx, spec):
                 if mutated_since_next:
                     n_noise_effective += 1
                 labs.add("noise=" + kind)
+            # Full snapshots read every property of every node, which itself brings dormant (flat, skipped) securities up to date.
+            # They are therefore taken only at generated steps (and at the end), so that stale clocks can build up in between.
+            snaps = spec.get("snapshots")
+            if snaps is not None and k not in snaps and k != len(ops) - 1:
+                continue
             sa = snapshot(bt, A.root, A.now())
             sb = snapshot(bt, B.root, B.now(), check_index=False)
             if A.root.bankrupt or B.root.bankrupt:
@@ -155,24 +178,27 @@ def case_twin(ctx, spec):
             d = diff_snap(sa, sb)
             if d:
                 raise Violation("%s: redundant updates/reads changed the observable state: %s" % (tag, d), signature="not-idempotent:" + d.split(":")[0].split(".")[-1])
-            # append-only: rows before the current date never change
-            if frozen is not None:
-                cur = past_rows(sb, frozen_n)
-                for node, fr in frozen.items():
-                    for f, v in fr.items():
-                        got = cur.get(node, {}).get(f)
-                        if isinstance(v, dict):
+            # append-only: once the clock has moved past a date, the rows recorded for it never change
+            for jdx in range(0, B.i):
+                rows = {}
+                for node, d in sb.items():
+                    for f, v in d.items():
+                        if isinstance(v, list) and len(v) > jdx:
+                            rows[(node, f)] = v[jdx]
+                        elif isinstance(v, dict):
                             for c, w in v.items():
-                                if got is None or got.get(c) != w:
-                                    raise Violation("%s: past rows of %s.%s[%s] changed: %s -> %s" % (tag, node, f, c, _short(w), _short(None if got is None else got.get(c))), signature="past-changed:" + f)
-                        elif got != v:
-                            raise Violation("%s: past rows of %s.%s changed: %s -> %s" % (tag, node, f, _short(v), _short(got)), signature="past-changed:" + f)
-            if op[0] == "next":
-                # freeze everything recorded for dates before the new current date (taken from the state *before* this op is not available any more,
-                # so freeze what the previous snapshot said about those rows)
-                frozen = past_rows(prev_snap, B.i) if B.i >= 1 else None
-                frozen_n = B.i
-            prev_snap = sb
+                                if len(w) > jdx:
+                                    rows[(node, f, c)] = w[jdx]
+                if jdx not in frozen_rows:
+                    frozen_rows[jdx] = rows
+                else:
+                    old = frozen_rows[jdx]
+                    for key, val in old.items():
+                        if rows.get(key, val) != val:
+                            raise Violation("%s: the row of date #%d of %s changed after the clock had moved on: %r -> %r" % (tag, jdx, ".".join(key), val, rows.get(key)), signature="past-changed:" + key[1])
+                    for key, val in rows.items():
+                        if key not in old:
+                            old[key] = val
     except ZeroDivisionError:
         raise Discard("zero base")
     except (Violation, Discard):
@@ -203,6 +229,11 @@ def twin_spec(draw):
     for pos, kind, cnt, path in noise:
         out.append([pos, kind, cnt if kind == "update" else draw(st.sampled_from(READS)), path])
     spec["noise"] = out
+    spec["snapshots"] = sorted(draw(st.lists(st.integers(0, n - 1), max_size=n, unique=True))) if draw(st.booleans()) else list(range(n))
+    sec_paths = [p_ for p_ in paths if p_.split(">")[-1] in spec["prices"]] or paths
+    any_read = st.tuples(st.sampled_from(paths), st.sampled_from(["value", "weight", "notional_value", "price", "prices", "values", "positions", "cash", "fees", "flows"]))
+    sec_read = st.tuples(st.sampled_from(sec_paths), st.sampled_from(["value", "weight", "notional_value", "price", "values", "positions"]))  # incl. dormant (flat, skipped) securities
+    spec["first_reads"] = [list(x) for x in draw(st.lists(st.one_of(any_read, sec_read, sec_read), min_size=1, max_size=8))]
     return spec
 
 
